@@ -55,6 +55,7 @@ fn main() {
                 "C06" => checks::c06::run(&tier, &args),
                 "C05" => checks::c05::run(&tier, &args),
                 "C14" => checks::c14::run(&tier, &args),
+                "C19" => checks::c19::run(&tier, &args),
                 _ => { eprintln!("unknown property {id}"); 2 }
             };
             std::process::exit(code);
